@@ -1,6 +1,6 @@
 """C03 A hash does not depend on the history of the VM, cache or dataset objects."""
 import astq
-from rules import aes, argon, decode, driver, jitcross
+from rules import aes, argon, decode, driver, dsinit, jitcross
 
 LEVEL = 'other'
 TECHNIQUE = 'CFG dominance on the drivers, definite-assignment of per-program VM state, decoder def-use path enumeration, guard/capture agreement of the set_cache shortcut, sibling comparison of call sequences; vtable-resolved effect comparison of the two binding setters'
@@ -33,3 +33,4 @@ def run(ctx, R):
     jitcross.rule_v2sym_a64(ctx, R)
     aes.rule_cover(ctx, R, F)
     driver.rule_bind_excl(ctx, R)
+    dsinit.rule_initsel(ctx, R, F)   # the compiled SuperscalarHash / init loop is regenerated at every initCache: no code of an earlier key survives a re-key
